@@ -158,14 +158,15 @@ def inCube (c p : Vec3) (m atol : Rat) : Bool :=
   let ok := fun (x cx : Rat) => leSqrt (x - cx - 2 * atol) m && leSqrt (cx - x - 2 * atol) m
   ok p.x c.x && ok p.y c.y && ok p.z c.z
 
-/-- one round of extension: every partial match × every nearby atom of the right element that reproduces
+/-- one round of extension: every partial match × every nearby atom of the right element that is not (an image of)
+    a unit-cell atom already in the partial match (`nearUc` = `near_indices[·] % len(structure)`) and that reproduces
     all distances to the earlier pattern atoms -/
 def extendRound (pp : List Vec3) (pelem : String) (i : Nat) (atol : Rat)
-    (nearPos : Nat → Vec3) (nearElem : Nat → String) (nearby : List Nat)
+    (nearPos : Nat → Vec3) (nearElem : Nat → String) (nearUc : Nat → Nat) (nearby : List Nat)
     (partials : List (List Nat)) : List (List Nat) :=
   partials.flatMap (fun mt =>
     nearby.filterMap (fun cand =>
-      if nearElem cand = pelem &&
+      if nearElem cand = pelem && !(mt.map nearUc).contains (nearUc cand) &&
          (List.range i).all (fun j =>
             iscloseSqrt (distSq (pp.getD i Vec3.zero) (pp.getD j Vec3.zero))
                         (distSq (nearPos (mt.getD j 0)) (nearPos cand)) atol)
@@ -173,15 +174,16 @@ def extendRound (pp : List Vec3) (pelem : String) (i : Nat) (atol : Rat)
 
 /-- all candidate tuples (as positions in the near list), start atom by start atom -/
 def candidates (pp : List Vec3) (pelems : List String) (atol m : Rat) (nStruct : Nat)
-    (nearPosL : List Vec3) (nearElemL : List String) : List (List Nat) :=
+    (nearPosL : List Vec3) (nearElemL : List String) (nearUcL : List Nat) : List (List Nat) :=
   let nearPos := fun k => nearPosL.getD k Vec3.zero
   let nearElem := fun k => nearElemL.getD k ""
+  let nearUc := fun k => nearUcL.getD k 0
   let sorted := (sortLex (nearPosL.zipIdx)).map (·.2)
   let starts := (List.range (min nStruct nearElemL.length)).filter (fun a => nearElem a = pelems.getD 0 "")
   starts.flatMap (fun a =>
     let nearby := sorted.filter (fun k => inCube (nearPos a) (nearPos k) m atol)
     (List.range (pp.length - 1)).foldl
-      (fun partials r => extendRound pp (pelems.getD (r + 1) "") (r + 1) atol nearPos nearElem nearby partials)
+      (fun partials r => extendRound pp (pelems.getD (r + 1) "") (r + 1) atol nearPos nearElem nearUc nearby partials)
       [[a]])
 
 /-! ### grouping, rotation check, choice -/
@@ -198,8 +200,9 @@ def insertNat (x : Nat) : List Nat → List Nat
   | y :: ys => if x ≤ y then x :: y :: ys else y :: insertNat x ys
 def sortNat (l : List Nat) : List Nat := l.foldr insertNat []
 
-/-- `np.allclose(a, b, atol=atol)` on one coordinate: `|a − b| ≤ atol + 1e-5·|b|` -/
-def closeCoord (a b atol : Rat) : Bool := decide (absRat (a - b) ≤ atol + absRat b / 100000)
+/-- `np.allclose(a, b, rtol=0, atol=atol)` on one coordinate: `|a − b| ≤ atol` — the requested absolute tolerance is the
+    whole tolerance -/
+def closeCoord (a b atol : Rat) : Bool := decide (absRat (a - b) ≤ atol)
 
 def closeVec (a b : Vec3) (atol : Rat) : Bool :=
   closeCoord a.x b.x atol && closeCoord a.y b.y atol && closeCoord a.z b.z atol
@@ -236,7 +239,8 @@ def findGroups (inp : FindInput) (ax1 : Nat) (oracle : Nat → Nat → Quat) : L
   let near := nearIndices inp.cell allPos m inp.atol
   let nearPosL := near.map (fun i => allPos.getD i Vec3.zero)
   let nearElemL := near.map (fun i => inp.elems.getD (i % n) "")
-  let cands := candidates inp.ppos inp.pelems inp.atol m n nearPosL nearElemL
+  let nearUcL := near.map (fun i => i % n)
+  let cands := candidates inp.ppos inp.pelems inp.atol m n nearPosL nearElemL nearUcL
   let candsAll := cands.map (fun t => t.map (fun k => near.getD k 0))
   let grouped := groupBy (fun t : List Nat => sortNat (t.map (· % n))) candsAll
   (near, grouped.zipIdx.map (fun (kg, g) =>
@@ -267,5 +271,34 @@ def find (inp : FindInput) (ax1 : Nat) (oracle : Nat → Nat → Quat) (choose :
       let t := g.tuples.getD i []
       { idx := t.map (· % n), pos := t.map (fun k => allPos.getD k Vec3.zero),
         q := if t.length > 1 then oracle gi i else Quat.identity }))
+
+/-! ### atoms stored outside the unit cell
+
+  `_get_positions_from_all_adjacent_unit_cells` searches every atom through its image INSIDE the cell:
+  `cells_away = floor(positions · cell⁻¹)`, `home_positions = positions − cells_away · cell` — a translation by integer
+  lattice vectors (an atom already inside is not moved at all). `find` / `findGroups` above are the search on the
+  positions they are given; `findW` / `findGroupsW` are `find_pattern_in_structure` itself. -/
+
+/-- how many whole cells an atom is away from the home cell, along each lattice vector -/
+def Mat3.cellsAway (m : Mat3) (v : Vec3) : Int × Int × Int :=
+  let f := m.frac v
+  (f.x.floor, f.y.floor, f.z.floor)
+
+/-- the image of `v` inside the cell: `v − (i·A + j·B + k·C)` with `(i, j, k) = cellsAway v` -/
+def Mat3.intoCell (m : Mat3) (v : Vec3) : Vec3 :=
+  let s := m.cellsAway v
+  Vec3.sub v (m.lattice s.1 s.2.1 s.2.2)
+
+/-- the structure with every atom replaced by its image inside the cell (same atoms, same order, same elements) -/
+def FindInput.wrapped (inp : FindInput) : FindInput :=
+  { inp with pos := inp.pos.map inp.cell.intoCell }
+
+/-- `find_pattern_in_structure`: candidate groups -/
+def findGroupsW (inp : FindInput) (ax1 : Nat) (oracle : Nat → Nat → Quat) : List Nat × List Group :=
+  findGroups inp.wrapped ax1 oracle
+
+/-- `find_pattern_in_structure`: the reported matches (indices, positions of the matched images, rotations) -/
+def findW (inp : FindInput) (ax1 : Nat) (oracle : Nat → Nat → Quat) (choose : Nat → List Nat → Nat) : List Match :=
+  find inp.wrapped ax1 oracle choose
 
 end Mofun
